@@ -117,9 +117,18 @@ func rhReporter(w *World) {
 		// must-analysis: the fact "root" holds only where `h.parent == nil` has been established on
 		// every path (a handler method without any test of h.parent establishes nothing: a
 		// sub-handler that carries a reporter of its own would call it under its own mutex)
-		d := &Dataflow{G: g, Must: true, Init: Facts{}, Transfer: func(n ast.Node, in Facts) Facts { return in }}
+		d := &Dataflow{G: g, Must: true, Init: Facts{}, Transfer: func(n ast.Node, in Facts) Facts {
+			// `p := h.parent`: p stands for the parent
+			if as, ok := n.(*ast.AssignStmt); ok && len(as.Lhs) == 1 && len(as.Rhs) == 1 {
+				if selField(info, as.Rhs[0]) == parent {
+					return in.with("par:" + render(as.Lhs[0]))
+				}
+				return in.without("par:" + render(as.Lhs[0]))
+			}
+			return in
+		}}
 		d.Branch = func(leaf ast.Expr, truth bool, s Facts) Facts {
-			if be, ok := leaf.(*ast.BinaryExpr); ok && selField(info, be.X) == parent && isNilIdent(info, be.Y) {
+			if be, ok := leaf.(*ast.BinaryExpr); ok && isNilIdent(info, be.Y) && (selField(info, be.X) == parent || s["par:"+render(be.X)]) {
 				if (be.Op == token.NEQ && !truth) || (be.Op == token.EQL && truth) {
 					return s.with("root")
 				}
